@@ -1,12 +1,13 @@
 #!/usr/bin/env python3
 """Turn the logs of a frozen `tools/recheck_all.sh` run (/tmp/recheck_*.log) into the committed records:
 seeded/RECHECK_seeded.txt, seeded/benign/RECHECK_benign.txt, the `reported by` column of seeded/TABLE.md and
-seeded/benign/TABLE.md.  usage: recheck_tables.py [logdir]"""
+seeded/benign/TABLE.md.  Logs of later partial runs (recheck8_*.log, recheck9_*.log: tools/recheck_some.sh) override the
+results of the full run for the changes they cover.  usage: recheck_tables.py [logdir]"""
 import ast, glob, os, re, sys
 HERE = os.path.dirname(os.path.dirname(os.path.abspath(__file__)))
 logdir = sys.argv[1] if len(sys.argv) > 1 else "/tmp"
 seeded, benign = {}, {}
-for lp in sorted(glob.glob(os.path.join(logdir, "recheck_*.log"))) + sorted(glob.glob(os.path.join(logdir, "recheck8_*.log"))):
+for lp in sorted(glob.glob(os.path.join(logdir, "recheck_*.log"))) + sorted(glob.glob(os.path.join(logdir, "recheck8_*.log"))) + sorted(glob.glob(os.path.join(logdir, "recheck9_*.log"))):
     cur = None
     for line in open(lp):
         line = line.rstrip("\n")
